@@ -140,6 +140,8 @@ template<class K> void build(SU_vector& A,SU_vector& B,const Stmt& s,K k){
     case 6: k.value((A_+B_)-(s.x*A_)); break;
     case 7: k.value((s.x*A_).Evolve(A_-B_,s.x)); break;
     case 8: k.value(-(std::move(A_)+B_)); break;
+    case 10: k.value((A_+A_).Evolve(B_,s.x)); break;
+    case 11: k.value((s.x*A_).Evolve(B_,s.x)); break;
     default: k.value((squids::iCommutator(A_,B_)+squids::ACommutator(A_,B_))); break;
   }
 #endif
